@@ -75,6 +75,9 @@ THEOREMS = [
     "PV.C08.C08_ms_gain_preger",
     "PV.C08.C08_ms_gain_sd",
     "PV.C08.C08_ms_gain_fdd_ms",
+    "PV.C08.OrderCert.congr",
+    "PV.C08.C08_gain_plscf_range",
+    "PV.C08.C08_ms_gain_plscf_ms",
     # FDD under a channel permutation, composed to the result of FDD_mpe (Props/C08Perm.lean)
     "PV.C08.fddOne_perm",
     "PV.C08.C08_perm_fdd_mpe",
